@@ -36,6 +36,11 @@ WORDS_HASH = ['#1', '#42', '#7', '#1234', '#', '%%', '%%x', '#BOT', '##500']
 WORDS_UNISPACE = ['20\u00a0000', 'x\u3000y', 'a\u2009b', '\u00a0']
 WORDS_PAREN = ['(', ')', '[', ']', '{', '}', 'a(b)c', '-LRB-', '-RRB-',
                'f(x)', '((']
+# words that resemble punctuation (or the names brackets are replaced by) but
+# are none of the documented punctuation tokens
+WORDS_LOOKALIKE = ['LRB', 'RRB', 'LSB', 'RSB', 'LCB', 'RCB', 'lrb', '-lrb-',
+                   'COMMA', "'s", "''s", '--x', '....', '$,', '$(', ',,',
+                   '-LRB', 'LRB-']
 MORPHS = ['--', 'Nom.Sg.Masc', '3.Sg.Pres.Ind', 'Pos', 'Dat.Pl.Fem', '--']
 
 
@@ -67,6 +72,9 @@ class Pools(object):
         else:
             w = pick(rng, self.words)
             p = pick(rng, self.pos)
+            if self.p_punct and rng.random() < 0.08:
+                w = pick(rng, WORDS_LOOKALIKE)
+                LOOKALIKE[0] += 1
         t = {'n': slot, 'w': w, 'p': p, 'e': pick(rng, self.edges),
              'm': pick(rng, self.morphs),
              'lm': (w.lower() if rng.random() < 0.5 else '--')
@@ -155,6 +163,7 @@ def tree(rng, n, pools=None, max_arity=4, p_unary=0.15, max_chain=3,
 
 
 LONG = [0]
+LOOKALIKE = [0]
 
 
 def maybe_long(rng, n, p=0.004, lo=120, hi=300):
